@@ -56,17 +56,31 @@ def generate_ops(rng, cfg, spec, tier) -> list[dict]:
         has_rot = True
     while len(ops) < n:
         r = rng.random()
-        if cfg.get("dask_eager") and rng.random() < 0.3:
-            # a task failure interrupts an eager fit on dask-backed data between / inside its scheduler calls; the
-            # object is undefined afterwards - and the next successful fit must be that of a fresh object
-            nxt = rng.choice(["F0", "F1", "F1", "F2"])
-            ops.append({"op": "fit_fault", "fit": nxt, "call": rng.choice([1, 1, 1, 2, 2, 3, 4, 5, 6, 8, 10, 12]), "at": rng.choice([1, 1, 2, 3, 5, 8, 20, 60]),
-                        "exc": rng.choice(["InjectedFault", "MemoryError", "OSError"])})
-            has_rot = False
-            has_boot = False
-            nxt = rng.choice([nxt, "F0", "F1", "F2"])
-            ops.append({"op": "fit", "fit": nxt})
-            cur = nxt
+        if (cfg.get("dask_eager") or lazy) and rng.random() < (0.3 if cfg.get("dask_eager") else 0.12):
+            fk = rng.choice(["fit", "fit", "fit", "query", "rot"]) if cfg.get("dask_eager") else rng.choice(["compute", "compute", "query", "rot"])
+            fault = {"call": rng.choice([1, 1, 1, 2, 2, 3, 4, 5, 6, 8, 10, 12]), "at": rng.choice([1, 1, 2, 3, 5, 8, 20, 60]),
+                     "exc": rng.choice(["InjectedFault", "MemoryError", "OSError"])}
+            if fk == "fit":
+                # a task failure interrupts an eager fit on dask-backed data between / inside its scheduler calls; the
+                # object is undefined afterwards - and the next successful fit must be that of a fresh object
+                nxt = rng.choice(["F0", "F1", "F1", "F2"])
+                ops.append(dict({"op": "fit_fault", "fit": nxt}, **fault))
+                has_rot = False
+                has_boot = False
+                nxt = rng.choice([nxt, "F0", "F1", "F2"])
+                ops.append({"op": "fit", "fit": nxt})
+                cur = nxt
+            elif fk == "compute":
+                ops.append(dict({"op": "compute_fault", "target": "m"}, **fault))
+            elif fk == "query":
+                # a query whose evaluation fails inside a dask computation: whatever bookkeeping the call had already
+                # written must not change a later answer
+                tgt = "r" if (has_rot and rng.random() < 0.4) else "m"
+                ops.append(dict({"op": "query_fault", "target": tgt, "q": q_for(tgt)}, **dict(fault, call=rng.choice([1, 1, 2]))))
+            elif fk == "rot" and cfg["rot_params"]:
+                # rotator.fit(model) fails half-way: the rotator is unusable, the base model must be intact
+                ops.append(dict({"op": "rot_fit", "reuse": bool(has_rot) and rng.random() < 0.5, "fault": fault}))
+                has_rot = False
             continue
         if r < 0.22:
             nxt = rng.choice(["F0", "F1", "F1", "F2"] + (["F3", "F3"] if "F3" in cfg["fits"] else []))
@@ -110,7 +124,7 @@ def generate_ops(rng, cfg, spec, tier) -> list[dict]:
             # another object of the same class is fitted on other data: objects must not share state
             ops.append({"op": "other_fit", "fit": rng.choice([f for f in cfg["fits"] if f != cur] or [cur])})
         elif lazy:
-            ops.append({"op": "compute_fault", "target": "m", "at": rng.randint(1, 40),
+            ops.append({"op": "compute_fault", "target": "m", "at": rng.randint(1, 40), "call": rng.choice([1, 1, 2, 3]),
                         "exc": rng.choice(["InjectedFault", "MemoryError", "OSError"])})
         if has_boot and rng.random() < 0.3:
             ops.append({"op": "query", "target": "b", "q": {"q": "call", "name": rng.choice(["components", "scores", "explained_variance"]), "kw": {}}})
@@ -427,12 +441,37 @@ def execute(cfg: dict, *, stop_at_first=True, trace=False) -> RunResult:
                         counts["rot_refits"] = counts.get("rot_refits", 0) + 1
                     else:
                         r = spec.rot_cls()(**copy.deepcopy(cfg["rot_params"]))
+                    flt = op.get("fault")
+                    if flt:
+                        sim.cfg.permanent_at = int(flt["at"])
+                        sim.cfg.permanent_exc = flt["exc"]
+                        sim.cfg.permanent_call = int(flt["call"])
+                        sim.cfg.armed_calls = 0
                     out = oracle.capture(r.fit, m)
+                    if flt:
+                        sim.cfg.permanent_at = None
+                        sim.cfg.armed_calls = 0
+                    if flt and not out.ok and out.exc_type == flt["exc"] and "injected" in out.exc_msg:
+                        # the rotator is undefined; the base model must answer as before (H4)
+                        counts["task_faults"] += 1
+                        counts["rot_fit_faults"] = counts.get("rot_fit_faults", 0) + 1
+                        st["r_valid"] = False
+                        res.log.append(f"  rot_fit under an injected fault -> {out.kind()}")
+                        probe(op, k=3, inv="H4")
+                        if not res.violations:
+                            check_queries("m", [{"q": "params"}], op, inv="H4")
+                        # (falls through to the common end-of-operation checks)
+                        out = None
                     key = (st["m_fit"], mirrored(st["m_computed"]))
-                    _, _, rout, _ = refs.rotator(key[0], key[1], bool(cfg["rot_params"]["compute"]))
-                    counts["rot_fits"] += 1
-                    res.log.append(f"  rot_fit -> {out.kind()} ref {rout.kind()}")
-                    if _nonconv(out) or _nonconv(rout):
+                    if out is None:
+                        rout = None
+                    else:
+                        _, _, rout, _ = refs.rotator(key[0], key[1], bool(cfg["rot_params"]["compute"]))
+                        counts["rot_fits"] += 1
+                        res.log.append(f"  rot_fit -> {out.kind()} ref {rout.kind()}")
+                    if out is None:
+                        pass
+                    elif _nonconv(out) or _nonconv(rout):
                         # numerical cliff (iteration count vs rtol): not judged, rotator unusable
                         counts["inconclusive"] = counts.get("inconclusive", 0) + 1
                         st["r_valid"] = False
@@ -486,6 +525,30 @@ def execute(cfg: dict, *, stop_at_first=True, trace=False) -> RunResult:
                 del other
                 if not res.violations:
                     probe(op, k=3)
+            elif kind == "query_fault":
+                tgt = op["target"]
+                if st["m_fit"] is None or (tgt == "r" and not st["r_valid"]):
+                    counts["undefined_skips"] += 1
+                else:
+                    obj = m if tgt == "m" else st["r"]
+                    sim.cfg.permanent_at = int(op["at"])
+                    sim.cfg.permanent_exc = op.get("exc", "InjectedFault")
+                    sim.cfg.permanent_call = int(op.get("call", 1))
+                    sim.cfg.armed_calls = 0
+                    out = oracle.capture(lambda: oracle.materialise(models.run_query(spec, obj, op["q"], env)))
+                    fired = not out.ok and out.exc_type == sim.cfg.permanent_exc and "injected" in out.exc_msg
+                    sim.cfg.permanent_at = None
+                    sim.cfg.armed_calls = 0
+                    res.log.append(f"  query_fault {tgt} {core.jdump(op['q'])} -> {out.kind()}")
+                    if fired:
+                        counts["task_faults"] += 1
+                        counts["query_faults"] = counts.get("query_faults", 0) + 1
+                    if not out.ok and out.exc_type == "SimHarnessError":
+                        raise sched.SimHarnessError(out.exc_msg)
+                    # whatever happened to that call, later answers are those of the fresh model
+                    check_queries(tgt, [op["q"]], op)
+                    if not res.violations:
+                        probe(op, k=2)
             elif kind == "compute_fault":
                 if st["m_fit"] is None or st["m_computed"]:
                     counts["undefined_skips"] += 1
@@ -550,6 +613,10 @@ def _opk(op):
         return f"other_fit:{op['fit']}"
     if k == "fit_fault":
         return f"fit_fault:{op['fit']}"
+    if k == "query_fault":
+        return f"qfault{op['target']}:{_qname(op['q'])}"
+    if k == "rot_fit" and op.get("fault"):
+        return "rot_fit_fault"
     return k
 
 
